@@ -184,3 +184,12 @@ func RunOne(t *testing.T, prop string, seed uint64, sc Scenario, o RunOpts, res 
 	})
 	return
 }
+
+// deeper scales generator bounds with the tier: the thorough tier explores
+// larger scenarios (more clients, calls, operations, frames), not only more of them.
+func deeper(tier string) int {
+	if tier == "thorough" {
+		return 2
+	}
+	return 1
+}
